@@ -2,10 +2,15 @@
 """tools/harmless_matrix.py [skip-pids…] — run every harmless rewrite against EVERY property anchored in a file the rewrite
 touches (one patched tree at a time, its properties in parallel), record outcomes in harmless/<id>/meta.json['outcome']."""
 import json, glob, os, subprocess, sys, tempfile, shutil, concurrent.futures as cf
-skip = set(sys.argv[1:])
-props = [json.loads(l) for l in open('/verif/properties.jsonl') if l.strip()]
+ROOT = os.path.dirname(os.path.dirname(os.path.abspath(__file__)))   # works in /verif and in a `vp run` snapshot
+args = sys.argv[1:]
+only = {a[5:] for a in args if a.startswith("only=")}   # only=C05-1 … restricts to these rewrites
+skip = {a for a in args if not a.startswith("only=")}
+props = [json.loads(l) for l in open(ROOT + '/properties.jsonl') if l.strip()]
 files = {p['id']: set(p['anchors']['files']) for p in props}
-for d in sorted(glob.glob('/verif/harmless/*/')):
+for d in sorted(glob.glob(ROOT + '/harmless/*/')):
+    if only and os.path.basename(d.rstrip('/')) not in only:
+        continue
     meta = json.load(open(d + 'meta.json'))
     touched = {l[6:] for l in open(d + 'patch.diff').read().splitlines() if l.startswith('+++ b/')}
     pids = sorted(p for p, fs in files.items() if fs & touched and p not in skip)
@@ -14,12 +19,12 @@ for d in sorted(glob.glob('/verif/harmless/*/')):
     subprocess.run('patch -s -p1 < %spatch.diff' % d, shell=True, cwd=T + '/r', check=True)
 
     def run(pid):
-        r = subprocess.run(['./check', pid, 'quick'], cwd='/verif', env=dict(os.environ, PYTHONPATH=T + '/r', VERIF_SEED='0'),
+        r = subprocess.run(['./check', pid, 'quick'], cwd=ROOT, env=dict(os.environ, PYTHONPATH=T + '/r', VERIF_SEED='0'),
                            capture_output=True, text=True, timeout=3000)
         viol = [l for l in r.stdout.splitlines() if l.startswith('VIOLATION')]
         what = ''
         try:
-            e = json.load(open('/verif/evidence/%s.json' % pid))
+            e = json.load(open(ROOT + '/evidence/%s.json' % pid))
             what = '; '.join(e['coverage'].get('no_longer_checks', [])[:3])[:300]
         except Exception:
             pass
@@ -32,4 +37,4 @@ for d in sorted(glob.glob('/verif/harmless/*/')):
     json.dump(meta, open(d + 'meta.json', 'w'), indent=1)
     print(os.path.basename(d.rstrip('/')), ' '.join('%s:%s' % (k, 'ok' if v == 'quiet' else 'ALARM') for k, v in res.items()), flush=True)
 # restore generated files / evidence for the clean tree
-subprocess.run(['tools/run_all.sh', 'quick', '1', '6'], cwd='/verif')
+subprocess.run(['tools/run_all.sh', 'quick', '1', '6'], cwd=ROOT)
